@@ -90,6 +90,25 @@ pub fn exec_oracle(kind: &str, fields: &[&str]) -> String {
             }
             "oracle pass".to_string()
         }
+        "S_C16R" => {
+            // the last of repeated keys wins: a definition with a key given several times is the definition with
+            // the last occurrence alone (both instantiable or both refused; the same values in both directions)
+            let (a, b) = (unescape(fields[0]), unescape(fields[1]));
+            let data = parse_data(fields[2]);
+            for fwd in [true, false] {
+                match (run_kind("default", &a, fwd, &data), run_kind("default", &b, fwd, &data)) {
+                    (Ok((na, fa)), Ok((nb, fb))) => {
+                        if na != nb || fa.iter().zip(fb.iter()).any(|(x, y)| !same_bits(x, y)) {
+                            return format!("oracle FAIL {a} is not {b} ({})", if fwd { "forward" } else { "inverse" });
+                        }
+                    }
+                    (Err(_), Err(_)) => {}
+                    (Ok(_), Err(e)) => return format!("oracle FAIL {a} is accepted, {b} is refused ({e})"),
+                    (Err(e), Ok(_)) => return format!("oracle FAIL {a} is refused ({e}), {b} is accepted"),
+                }
+            }
+            "oracle pass".to_string()
+        }
         "S_INVMOD" => {
             // the `inv` modifier, behind or in front of the operator's name, exchanges the two directions of the
             // operator - whatever the operator: `def inv` forward is `def` inverse, and the other way round
@@ -1749,6 +1768,38 @@ fn oracle_c18t(fields: &[&str]) -> String {
     });
     if let Some(p) = problems.first() {
         return format!("oracle FAIL {p} ({def})");
+    }
+    // the same on a Minimal context shared by the threads (definitions that need no grids)
+    if !def.contains("grids") {
+        let mut min = Minimal::new();
+        if let Ok(mop) = min.op(&def) {
+            let mut reference = data.clone();
+            let nref = min.apply(mop, Fwd, &mut reference).unwrap_or(usize::MAX);
+            let want = dump_data(&reference);
+            let min_ref = &min;
+            let problems: Vec<String> = std::thread::scope(|s| {
+                let mut hs = vec![];
+                for t in 0..8 {
+                    let data = data.clone();
+                    let want = want.clone();
+                    hs.push(s.spawn(move || {
+                        for round in 0..40 {
+                            let mut d = data.clone();
+                            match min_ref.apply(mop, Fwd, &mut d) {
+                                Ok(n) if n == nref && dump_data(&d) == want => {}
+                                Ok(_) => return Some(format!("thread {t} round {round}: result on a shared Minimal differs from the sequential one")),
+                                Err(e) => return Some(format!("thread {t} round {round}: apply on a shared Minimal fails ({})", err_class(&e))),
+                            }
+                        }
+                        None
+                    }));
+                }
+                hs.into_iter().filter_map(|h| h.join().unwrap_or(Some("thread panicked".to_string()))).collect()
+            });
+            if let Some(p) = problems.first() {
+                return format!("oracle FAIL {p} ({def})");
+            }
+        }
     }
     // handles minted on different threads, in contexts of their own, are all different, and none
     // of them resolves in a context it was not minted in
@@ -3879,6 +3930,13 @@ fn oracle_c06(fields: &[&str]) -> String {
                 }
                 if *name != "rectifying" && !((fw(hp) - hp).abs() < 1e-12) {
                     return format!("oracle FAIL {name} latitude of the pole is {} on {}", fw(hp), fields[1]);
+                }
+                // ... of either pole, in either direction; and odd there too
+                if *name != "rectifying" && (!((fw(-hp) + hp).abs() < 1e-12) || !((bw(hp) - hp).abs() < 1e-12) || !((bw(-hp) + hp).abs() < 1e-12)) {
+                    return format!("oracle FAIL {name} latitude: the south pole maps to {}, the poles map back to {} and {} on {}", fw(-hp), bw(hp), bw(-hp), fields[1]);
+                }
+                if !((fw(-hp) + fw(hp)).abs() < 1e-15) {
+                    return format!("oracle FAIL {name} latitude is not odd at the poles on {}: {} and {}", fields[1], fw(hp), fw(-hp));
                 }
                 for p in parse_data(fields[2]) {
                     let (x, y) = (p[0].min(p[1]), p[0].max(p[1]));
